@@ -22,7 +22,7 @@ PROPS = {
     "C05": dict(mix=[("plain", 0.6, {"features": {"queues": "always", "max_tasks": 5}}),
                      ("cmds", 0.4, {"features": {"queues": "always"}, "kinds": ["trigger"]})], mc=["MC_queue", "MC_base"]),
     "C07": dict(mix=[("plain", 0.4, {"features": {"future": True}}), ("stopcmds", 0.3, {}),
-                     ("stopcmds", 0.3, {"features": {"future": "always", "max_fcp": 6}})], mc=["MC_base"]),
+                     ("stopcmds", 0.3, {"features": {"future": "always", "max_fcp": 6}})], mc=["MC_base", "MC_cmds:MC_cmds1"]),
     "C09": dict(mix=[("plain", 0.4, {}), ("faults", 0.6, {"features": {"retries": "always"}})], mc=["MC_msgs"]),
     "C10": dict(mix=[("faults", 0.5, {}), ("cmds", 0.5, {"kinds": ["trigger"], "dups": True,
                                                              "features": {"retries": "always", "queues": "always"}})], mc=["MC_msgs"]),
@@ -30,9 +30,9 @@ PROPS = {
     "C26": dict(mix=[("plain", 0.3, {}), ("faults", 0.2, {}), ("cmds", 0.2, {}),
                      ("cmds", 0.3, {"kinds": ["reload_edit", "reload_edit", "trigger"], "features": {"future": "always", "max_tasks": 5}})],
                 mc=["MC_base"]),
-    "C06": dict(mix=[("hold", 1.0, {})], mc=["MC_hold"]),
+    "C06": dict(mix=[("hold", 1.0, {})], mc=["MC_cmds:MC_cmds1", "MC_cmds"]),
     "C43": dict(mix=[("stopcmds", 0.6, {}), ("stopcmds", 0.2, {"features": {"future": "always", "max_fcp": 6}}),
-                     ("restart", 0.2, {})], mc=["MC_stop"]),
+                     ("restart", 0.2, {})], mc=["MC_cmds:MC_cmds1", "MC_cmds"]),
     "C45": dict(mix=[("abstrig", 1.0, {})], mc=["MC_abs"]),
     "C46": dict(mix=[("warm", 1.0, {})], mc=["MC_warm"]),
     "C08": dict(mix=[("cmds", 0.5, {"kinds": ["trigger", "trigger", "set"]}),
@@ -49,13 +49,13 @@ PROPS = {
                 mc=["MC_base"]),
     "C33": dict(mix=[("xtrig", 1.0, {})], mc=[]),
     "C32": dict(mix=[("expire", 1.0, {})], mc=[]),
-    "C19": dict(mix=[("restart", 1.0, {})], mc=["MC_restart"]),
-    "C20": dict(mix=[("crash", 1.0, {})], mc=["MC_crash"]),
+    "C19": dict(mix=[("restart", 1.0, {})], mc=["MC_cmds:MC_cmds1", "MC_cmds"]),
+    "C20": dict(mix=[("crash", 1.0, {})], mc=["MC_crash:MC_crash_finding!", "MC_crash"]),
     "C31": dict(mix=[("plain", 0.6, {"features": {"sequential": "always"}}),
                      ("warm", 0.4, {"features": {"sequential": "always"}})], mc=["MC_seq", "MC_base"]),
 }
 N_RUNS = {"quick": 96, "thorough": 1500}
-SLOW_MC = {"MC_queue", "MC_seq"}     # > 30 s: thorough tier only
+SLOW_MC = {"MC_queue", "MC_seq", "MC_cmds", "MC_crash"}     # > 30 s: thorough tier only
 
 def _jobs(ctx, cfg, n):
     jobs = []
@@ -151,7 +151,8 @@ def model_check(ctx, cfg):
     mcdir = os.path.join(tlc.SPEC_DIR, "mc")
     done = []
     for spec in cfg.get("mc", []):
-        modname, _, cfgname = spec.partition(":")
+        expect_violation = spec.endswith("!")      # a configuration that must reproduce a known finding
+        modname, _, cfgname = spec.rstrip("!").partition(":")
         name = cfgname or modname
         mod = os.path.join(mcdir, modname + ".tla")
         cfgp = os.path.join(mcdir, name + ".cfg")
@@ -160,6 +161,13 @@ def model_check(ctx, cfg):
         if ctx.quick and name in SLOW_MC:
             continue
         res = tlc.run_tlc(mod, cfgp, workers=16, timeout=600 if ctx.quick else 3000, heap="8g")
+        if expect_violation:
+            if res.ok or res.kind != "invariant":
+                raise tlc.TLCError(f"{name}: the model no longer reproduces the known finding it is kept for "
+                                   f"(ok={res.ok} kind={res.kind})\n{res.out[-1500:]}")
+            done.append({"config": name, "distinct": res.distinct, "generated": res.generated, "depth": res.depth,
+                         "wall_s": round(res.wall_s, 1), "expected_violation": res.violated})
+            continue
         if not res.ok:
             # a failure of the spec alone is a machinery failure, never a verdict about the code
             raise tlc.TLCError(f"{name}: {res.kind} {res.violated}\n{res.out[-2500:]}")
